@@ -541,3 +541,78 @@ Qed.
 
 Example sessions_nonvacuous : sessions dirs2 [] evs2 = true.
 Proof. vm_compute. reflexivity. Qed.
+
+(* ------------------------------------------------------------------ connection reset, descriptor re-used *)
+Lemma serve_w_in : forall order rest tm s,
+  serve_w (map WIn order ++ rest) tm s =
+  match serve order tm s with Some (s1, tm1) => serve_w rest tm1 s1 | None => None end.
+Proof.
+  induction order as [|k r IH]; intros rest tm s; [reflexivity|]. cbn [map app serve_w serve].
+  destruct (handle_client_sock (tm k)) as [|a t']; [reflexivity|].
+  destruct (apply k a s) as [s'|]; [apply IH|reflexivity].
+Qed.
+
+Lemma forallb_wf_pair (k : N) (ms : list msg) :
+  forallb wf_msg ms = true -> forallb (fun e : N * msg => wf_msg (snd e)) (map (pair k) ms) = true.
+Proof.
+  induction ms as [|m r IH]; [reflexivity|]. cbn [map forallb snd]. intros W.
+  apply andb_true_iff in W. destruct W as [W1 W2]. rewrite W1, IH by exact W2. reflexivity.
+Qed.
+
+(* A client announces d1, sends body1 (and possibly the beginning [junk] of something more) and its
+   connection is RESET: the hang-up removes its entry from the client table.  The next connection is accepted
+   on the SAME descriptor number k and records into d2.  Whatever the segmentations: d2 ends up as the local
+   recording of the second client, d1 holds exactly what the first one had completely sent, and the client
+   table is as before. *)
+Lemma reset_then_reuse k d1 body1 junk d2 body2 t1 t2 s :
+  forallb wf_msg (MDir d1 :: body1) = true -> forallb wf_msg (MDir d2 :: body2 ++ [MEnd]) = true ->
+  forallb is_body body1 = true -> forallb is_body body2 = true ->
+  fs s d1 = None -> fs s d2 = None -> d1 <> d2 -> d1 <> old_of d2 ->
+  good t1 = true -> bytes_of t1 = concat (map enc (MDir d1 :: body1)) ++ junk ->
+  good t2 = true -> bytes_of t2 = concat (map enc (MDir d2 :: body2 ++ [MEnd])) ->
+  exists s' tm',
+    serve_w (map WIn (repeat k (S (length body1))) ++ [WHup k; WNew k t2] ++ map WIn (repeat k (length body2 + 2)))
+            (tm_set k t1 (fun _ => [])) s = Some (s', tm') /\
+    fs s' d1 = Some (local_dir body1) /\ fs s' d2 = Some (local_dir body2) /\ clients s' = clients s.
+Proof.
+  intros W1 W2 B1 B2 A1 A2 N12 N1o G1 Bt1 G2 Bt2.
+  (* abstract run of the first session, with the hang-up acting as recv_trace_end *)
+  destruct (same_as_local k d1 body1 s B1 (create_directory_absent d1 (fs s) A1)) as [s1 [R1 [F1 [C1 O1]]]].
+  change (MDir d1 :: body1 ++ [MEnd]) with ((MDir d1 :: body1) ++ [MEnd]) in R1.
+  rewrite map_app, run_app in R1.
+  destruct (run (map (pair k) (MDir d1 :: body1)) s) as [sA|] eqn:RA; [|discriminate].
+  cbn [map run action_of] in R1. destruct (apply k AEnd sA) as [s1'|] eqn:Hup; [|discriminate].
+  injection R1 as ->.
+  (* concrete: first session *)
+  rewrite serve_w_in.
+  assert (RT1 := serve_roundtrip (map (pair k) (MDir d1 :: body1)) (tm_set k t1 (fun _ => [])) s
+                                 (fun x => if x =? k then junk else [])).
+  rewrite RA, map_fst_pair in RT1. cbn [length] in RT1.
+  destruct RT1 as [tmA [SvA TA]].
+  { apply forallb_wf_pair. exact W1. }
+  { intros k'. unfold tm_set. destruct (k' =? k); [exact G1|reflexivity]. }
+  { intros k'. unfold tm_set. destruct (k' =? k) eqn:E.
+    - apply N.eqb_eq in E. subst k'. rewrite stream_of_own. exact Bt1.
+    - apply N.eqb_neq in E. rewrite stream_of_foreign by exact E. reflexivity. }
+  rewrite SvA. cbn [app serve_w]. rewrite Hup.
+  (* second session *)
+  set (tmB := tm_set k t2 (tm_set k [] tmA)).
+  assert (A2' : fs s1 d2 = None).
+  { rewrite O1 by congruence. unfold create_directory. rewrite A1. rewrite fs_set_other by congruence. exact A2. }
+  destruct (same_as_local k d2 body2 s1 B2 (create_directory_absent d2 (fs s1) A2')) as [s2 [R2 [F2 [C2 O2]]]].
+  assert (RT2 := serve_roundtrip (map (pair k) (MDir d2 :: body2 ++ [MEnd])) tmB s1 (fun _ => [])).
+  rewrite R2, map_fst_pair in RT2.
+  destruct RT2 as [tm2 [Sv2 _]].
+  { apply forallb_wf_pair. exact W2. }
+  { intros k'. unfold tmB, tm_set. destruct (k' =? k); [exact G2|]. apply TA. }
+  { intros k'. unfold tmB, tm_set. destruct (k' =? k) eqn:E.
+    - apply N.eqb_eq in E. subst k'. rewrite stream_of_own, app_nil_r. exact Bt2.
+    - rewrite stream_of_foreign by (apply N.eqb_neq; exact E). destruct (TA k') as [_ Tb]. rewrite Tb, E. reflexivity. }
+  exists s2, tm2. split.
+  - cbn [serve_w]. fold tmB.
+    rewrite <- (app_nil_r (map WIn (repeat k (length body2 + 2)))), serve_w_in.
+    replace (length body2 + 2)%nat with (length (MDir d2 :: body2 ++ [MEnd])) by (cbn [length]; rewrite app_length; cbn; lia).
+    rewrite Sv2. reflexivity.
+  - split; [|split; [exact F2|congruence]].
+    rewrite O2 by exact N12. rewrite create_directory_elsewhere by assumption. exact F1.
+Qed.
